@@ -453,7 +453,7 @@ func (p *c14) Rule() string {
 }
 
 func (p *c14) Assumptions() []string {
-	return []string{"tokens are the generator's tokens: multi-word operators (not in, is not, starts with, ends with) and numbers with a fraction are single tokens",
+	return []string{"tokens are the generator's tokens: numbers with a fraction are single tokens; the words of a multi-word operator (not in, is not, starts with, ends with) are separate tokens, with a boundary between them like between any two words",
 		"whitespace may be empty only where gen.CanAbut says the two tokens cannot merge (not both word-like, not both symbols, not forming a delimiter or trim marker)",
 		"'-' markers are only added to delimiters without adjacent whitespace"}
 }
